@@ -230,7 +230,7 @@ fn replay(path: &str, worker: bool) -> i32 {
             "c09-root" => props::c09::replay(r),
             "c10-root" | "c10-history" | "c10-game" => props::c10::replay(r),
             "e5-schedule" if prop == "C19" => props::c19::replay(r),
-            "e5-schedule" | "c14-deep" => props::c14::replay(r, &props::c14::oracle),
+            "e5-schedule" | "c14-deep" | "c14-grammar" => props::c14::replay(r, &props::c14::oracle),
             "c13-case" => props::c13::replay(r),
             "c15-mobility" | "c15-stack" | "c15-autoplay" => props::c15::replay(r),
             "c19-history" | "c19-process" => props::c19::replay(r),
